@@ -183,6 +183,12 @@ func hfields(line string) []string {
 
 var symbolicMods = map[string][2]uint32{
 	"u+x": {07777, 0100}, "a-w": {07777 &^ 0222, 0}, "+t": {07777, 01000}, "u+s": {07777, 04000}, "o-r": {07777 &^ 0004, 0},
+	// several clauses, applied in order as chmod(1) does: a later clause wins over an earlier one
+	"a-x,u+x":        {07777 &^ 0111, 0100},
+	"-r,u+r":         {07777 &^ 0444, 0400},
+	"a-rwx,u+rw,g+r": {07000, 0640},
+	"u+s,a-s,g+s":    {07777 &^ 06000, 02000},
+	"a-r,u+r":        {07777 &^ 0444, 0400},
 }
 
 func (e *expander) parseOpts(fields []string) (lopts, bool) {
